@@ -121,7 +121,12 @@ func (s Scenario) coq(o Outcome, log []storeCall) (string, bool) {
 	return term, len(pr.Errors) == 0
 }
 
-func shortObserved(o Outcome) string {
+func shortObserved(o Outcome) (out string) {
+	defer func() {
+		if r := recover(); r != nil {
+			out = "result cannot be rendered: " + fmt.Sprint(r)
+		}
+	}()
 	switch o.Class {
 	case "ok":
 		s := ""
@@ -190,6 +195,9 @@ func interpCases(c *Ctx, n int, tweak func(cfg *GenCfg, i int), post func(s *Sce
 		case "saveThenUse":
 			prog = g.saveThenUseProgram()
 			c.count("directed:saveThenUse")
+		case "unboundedThenBounded":
+			prog = g.unboundedThenBoundedProgram()
+			c.count("directed:unboundedThenBounded")
 		default:
 			prog = g.Program()
 		}
@@ -265,6 +273,8 @@ func init() {
 				cfg.Directed = "repeatDraw"
 			case 6:
 				cfg.Directed = "saveThenUse"
+			case 7:
+				cfg.Directed = "unboundedThenBounded"
 			}
 		}, nil)
 	}
